@@ -875,6 +875,50 @@ def rule_rebuild(ctx):
                         "nodes are rebuilt bottom-up", lambda i: True, 1)
 
 
+def rule_reorder(ctx):
+    """A function that sets the index order (``inds``) of nodes by hand - the root
+    of the order-sensitive keys - may do so only on a tree whose *derived* recipes
+    (tensordot axes / permutation, einsum equation) are not cached: a whole-tree drop
+    of the derived keys dominates the first such store on every path.  Otherwise a
+    recipe computed from the old orders (by an earlier ``contract`` or
+    ``print_contractions``) is executed against the new ones."""
+    r = RuleResult("C02-REORDER", "index orders are only re-assigned on a tree without cached recipes", 1)
+    O = order_sensitive(ctx)
+    derived = O - {"inds"}
+    for f in tree_funcs(ctx, False):
+        if f.cls is None or f.cls.module.path != C.CORE:
+            continue
+        if f.parent_func is not None:
+            continue  # the getter decorator's own store
+        stores = [n for kind, key, ne, n, v, ke in C.info_key_accesses(f)
+                  if kind == "store" and key == "inds"]
+        if not stores:
+            continue
+        if f.name == "contract_nodes_pair":
+            continue  # stores inds of a *new* node (nothing derived is cached for it); see C02-ROOT
+        fl = ctx.flow(f)
+        drops = [n.id for n, call in fl.calls() if _is_reset_call(ctx, f, call)]
+        drops += _inline_reset_loops(ctx, f, fl, derived)
+        key = ctx.key(f, "C02-REORDER")
+        bad = None
+        for st in stores:
+            sn = fl.cfg.containing(st, f.module.parents)
+            # every path from the entry to the store passes a whole-tree drop
+            if sn is None or not drops or not fl.cfg.all_paths_pass(fl.cfg.entry.id, drops, dst=sn.id):
+                bad = st
+                break
+        if bad is None:
+            r.ok(key, f.loc, "recipes derived from the index orders are dropped before the orders are set")
+        else:
+            pth = fl.cfg.path_avoiding(fl.cfg.entry.id, drops, dst=fl.cfg.containing(bad, f.module.parents).id)
+            r.violation(key, C.loc(f, bad), f"`{C.unparse(C.enclosing_stmt(f, bad), 60)}` sets a node's index "
+                        f"order on a path on which the derived keys {sorted(derived)} were not dropped: a "
+                        "recipe cached from the old order (earlier contract / print_contractions) is then "
+                        "executed against the new order - wrong axes contracted or permuted",
+                        path=fl.cfg.describe_path(pth) if pth else "")
+    return r
+
+
 # ---- NODE ------------------------------------------------------------------
 
 
@@ -1205,6 +1249,6 @@ def rule_copy(ctx):
                         lambda i: True, 20)
 
 
-RULES = [rule_keys, rule_deps, rule_lists, rule_closure, rule_root, rule_cores, rule_corekey, rule_topo,
-         rule_multpair, rule_rebuild, rule_node,
+RULES = [rule_keys, rule_deps, rule_lists, rule_closure, rule_reorder, rule_root, rule_cores, rule_corekey,
+         rule_topo, rule_multpair, rule_rebuild, rule_node,
          rule_presurv, rule_pure, rule_copy, rule_preproc]
